@@ -163,4 +163,68 @@ def p_c18(run):
                            "the library defines mutable objects with static storage duration" % name, "objects": muts},
                           no_input=not found_race)
 
-PROPS = {"C08": p_c08, "C11": p_c11, "C12": p_c12, "C18": p_c18}
+# ---------------------------------------------------------------- C19
+def build_arduino(run, cxx="g++", opt="-O2", san=()):
+    d = os.path.join(run.work.dir, "ard-%s%s%s" % (cxx, opt, "-san" if san else ""))
+    if os.path.exists(os.path.join(d, "ard_driver")):
+        return os.path.join(d, "ard_driver")
+    os.makedirs(d)
+    lib = os.path.join(d, "Skinny")
+    shutil.copytree(os.path.join(C.REPO, "arduino", "libraries", "Skinny"), lib)
+    srcs = [os.path.join(lib, f) for f in sorted(os.listdir(lib)) if f.endswith(".cpp")]
+    rc, out, err = C.sh([cxx, opt] + list(san) + ["-I" + lib, "-o", os.path.join(d, "ard_driver"),
+                         os.path.join(C.HARNESS, "arduino_driver.cpp")] + srcs, timeout=600)
+    if rc != 0:
+        raise C.BuildError("arduino-" + cxx, out + err)
+    return os.path.join(d, "ard_driver")
+
+def p_c19(run):
+    ck = _imports()
+    v = C.build_variant(run.work, "native", "gcc", "-O2")
+    builds = [("g++", "-O2", ())] if run.tier == "quick" else \
+             [("g++", "-O2", ()), ("clang++", "-O1", ("-fsanitize=address,undefined", "-fno-sanitize-recover=all")), ("g++", "-O0", ())]
+    env = dict(os.environ, ASAN_OPTIONS="detect_leaks=0")
+    for cxx, opt, san in builds:
+        drv = build_arduino(run, cxx, opt, san)
+        for cls, ascript, cscript, pairs, refs in G.gen_c19(run.rng, run.tier):
+            vname = "arduino-%s%s" % (cxx, opt)
+            run.stats["variants"].add(vname); run.stats["scripts"] += 1
+            for l in ascript.splitlines():
+                run.stats["ops"] += 1; run.stats["shapes"].add(C.shape(cls + " " + l))
+            if len(run.samples) < 4:
+                run.samples.append({"class": cls, "first_ops": ascript.splitlines()[:8], "c_library_ops": cscript.splitlines()[:6]})
+            p = subprocess.run([drv], input=ascript, capture_output=True, text=True, env=env, timeout=600)
+            m = subprocess.run([run.model, "--arduino", "/dev/stdin"], input=ascript, capture_output=True, text=True, timeout=600)
+            def viol(what, extra=None):
+                d = {"property": "C19", "kind": "arduino", "what": what, "class": cls, "build": vname,
+                     "arduino_script": ascript.splitlines(), "c_library_script": cscript.splitlines()}
+                d.update(extra or {}); run.add_violation(d)
+            if p.returncode != 0:
+                viol("the Arduino driver failed: " + (p.stderr.strip().splitlines() or ["?"])[-1][:300]); continue
+            if m.returncode != 0 or "MODEL-UNDEFINED" in m.stdout:
+                raise RuntimeError("harness error: arduino model rejected the script: " + m.stderr[-300:])
+            # (1) Arduino classes == Arduino model (Coq: ModelArduino.v, proved equal to the C model)
+            d = C.first_diff(p.stdout, m.stdout)
+            if d is not None:
+                viol("Arduino class %s disagrees with its verified model: library `%s` / model `%s`" % (cls, d[1][:150], d[2][:150]))
+                continue
+            # (2) Arduino classes == the C library built from /repo (and the C library == its model)
+            cres = run.correspond("C-library twin of " + cls, cscript, v)
+            ares = ck.parse_out(p.stdout)
+            if cres is None:
+                continue
+            for al, cl in pairs:
+                run.stats["oracle_checks"] += 1
+                if ck.outhex(ares, al) != ck.outhex(cres, cl):
+                    viol("Arduino %s and the C library disagree (arduino line %d / C line %d)" % (cls, al, cl),
+                         {"arduino_out": ares.get(al), "c_out": cres.get(cl)}); break
+            for alines, ctrs, data in refs:
+                run.stats["oracle_checks"] += 1
+                ks = "".join(ck.outhex(cres, l) or "" for l in ctrs)
+                got = "".join(ck.outhex(ares, l) or "" for l in alines)
+                exp = bytes(x ^ y for x, y in zip(bytes.fromhex(data), bytes.fromhex(ks))).hex()
+                if got != exp:
+                    viol("CTR<%s> with a narrow counter does not produce input xor E(counter_i)" % cls,
+                         {"arduino_lines": alines}); break
+
+PROPS = {"C08": p_c08, "C11": p_c11, "C12": p_c12, "C18": p_c18, "C19": p_c19}
